@@ -238,7 +238,9 @@ func vForward(requestSide bool) {
 	reqBody := verifBytes("req.body", verifChoose("req.bodyLength", 3))
 	// stream mode: the payload is a reader; the length the client declared need not be the
 	// length of that stream (a RequestAdaptor in front may have replaced the body)
-	stream := requestSide && verifBool("req.stream")
+	// (on the response side too: whether the REQUEST was streamed says nothing about how much of
+	// the response may be buffered)
+	stream := (requestSide || !compress) && verifBool("req.stream")
 	ctx, req, std := vClientRequest(reqBody, stream)
 	if stream {
 		std.ContentLength = verifInt("req.clientDeclaredLength", -1, 3)
